@@ -195,7 +195,8 @@ def endPoint (p : Prob) (name : String) (t : Rat) : Option Knots :=
 
 /-- `__states_times_in(variable, t0, tf, m)`: the knots `(t, x)`; `none` = the code raises
     (no history although the window starts before the first time stamp; the variable is not in
-    the decision vector; **no time stamp of the variable inside the window**) -/
+    the decision vector).  A window without any time stamp of the variable yields just the two
+    interpolated end points (repaired behaviour, finding F31). -/
 def statesTimesIn (p : Prob) (name : String) (a? b? : Option Rat) : Option Knots := do
   let c := p.canon name
   let times := p.timesOf name
@@ -213,7 +214,7 @@ def statesTimesIn (p : Prob) (name : String) (a? b? : Option Rat) : Option Knots
   let hidx := inWindow a b hist
   let x0 ← if !hasTime idx a && !hasTime hidx a then endPoint p name a else some []
   let xf ← if !hasTime idx b && !hasTime hidx b then endPoint p name b else some []
-  if idx = [] then none else some (x0 ++ hidx ++ idx ++ xf)
+  some (x0 ++ hidx ++ idx ++ xf)
 
 /-- `states_in` -/
 def statesIn (p : Prob) (name : String) (a? b? : Option Rat) : Option (List Rat) :=
@@ -251,14 +252,14 @@ def ColVar.derAt (cv : ColVar) (times : List Rat) (i : Nat) : Res :=
          | none => .num cv.initDerConst
   | j + 1 => ((cv.valueAt times (j + 1)).sub (cv.valueAt times j)).divBy (times.getD (j + 1) 0 - times.getD j 0)
 
-/-- what `map_path_expression` needs: the collocated variables, the constant inputs already
-    interpolated to the collocation times, extra (path) variables stamp by stamp, and the
-    parameters of the member -/
+/-- what `map_path_expression` needs: the collocated variables, the constant inputs (interpolated
+    to the collocation times with their own method when the problem is transcribed), extra (path)
+    variables stamp by stamp, and the parameters of the member -/
 structure MapProb where
   t0 : Rat
   times : List Rat
   cols : List ColVar
-  cins : List (List Rat)
+  cins : List CIn                  -- raw series; interpolated to the collocation times (fills 0)
   pathv : List (List Rat)          -- decoded path variables per stamp
   pars : List Rat
 deriving Repr
@@ -273,7 +274,9 @@ deriving Repr, DecidableEq
 def symAt (mp : MapProb) (i : Nat) : Sym → Res
   | .state j => (mp.cols.getD j ⟨⟨0, [], [], 0, none, none⟩, 0⟩).valueAt mp.times i
   | .der j => (mp.cols.getD j ⟨⟨0, [], [], 0, none, none⟩, 0⟩).derAt mp.times i
-  | .cin j => .num ((mp.cins.getD j []).getD i 0)
+  | .cin j =>
+      let c := mp.cins.getD j ⟨[], 0⟩
+      ofOut (interpCore c.mode c.series (finFill 0) (finFill 0) (mp.times.getD i 0))
   | .time => .num (mp.times.getD i 0 - mp.t0)
   | .pathv j => .num ((mp.pathv.getD j []).getD i 0)
   | .par j => .num (mp.pars.getD j 0)
